@@ -81,6 +81,11 @@ type Runner struct {
 	Steps          int
 	GateMissing    int
 	SettleTimeouts int
+	// gate dispatcher: sndExits counts how often a sender goroutine reached its exit sequence (after it has
+	// recorded the error that made it leave); extraGate is the gate function of the step in progress
+	sndExits       atomic.Int32
+	exitsAtConnect int32
+	extraGate      atomic.Pointer[func(string)]
 	Hangs          int
 	base           int // goroutines before the client was created
 	isSending      bool
@@ -349,10 +354,10 @@ func (rn *Runner) settle() {
 	}
 	if rn.strm.SendFailed() {
 		rn.snd = "dead"
-		// the send error is recorded right after Send returns; the broken stream
-		// then fails the receiver too
+		// the send error is recorded right after Send returns and before the sender starts its exit sequence
+		// (gate s.exit1); the broken stream then fails the receiver too
 		for dl := time.Now().Add(limit); ; {
-			if cs, _ := rn.c.Status(); cs != nil && len(cs.SendErrs) > 0 && (rn.recvDead || len(cs.ReadErrs) > 0) {
+			if cs, _ := rn.c.Status(); cs != nil && len(cs.SendErrs) > 0 && rn.sndExits.Load() > rn.exitsAtConnect && (rn.recvDead || len(cs.ReadErrs) > 0) {
 				break
 			}
 			if !time.Now().Before(dl) {
@@ -397,6 +402,14 @@ func (rn *Runner) Step(in Input) error {
 	switch in.A {
 	case "new":
 		rn.dead = false
+		client.VerifSetGate(func(site string) {
+			if site == "s.exit1" {
+				rn.sndExits.Add(1)
+			}
+			if g := rn.extraGate.Load(); g != nil {
+				(*g)(site)
+			}
+		})
 		opts := []client.Opt{}
 		if in.Params {
 			opts = append(opts, client.PersistEntries())
@@ -425,6 +438,7 @@ func (rn *Runner) Step(in Input) error {
 		rn.strm.BreakOnSendErr = true
 		rn.strm.EOFBreaksSend = true
 		rn.nrecv, rn.recvDead, rn.snd, rn.wantCalls = 0, false, "alive", 0
+		rn.exitsAtConnect = rn.sndExits.Load()
 		rn.Sink.Emit(Event{"ev": "cconnect", "ok": err == nil, "st": rn.state()})
 	case "q":
 		m := concMsg(in.M)
@@ -473,6 +487,10 @@ func (rn *Runner) Step(in Input) error {
 		if aliveBefore {
 			// the stuck Send now fails; wait for it
 			for dl := time.Now().Add(limit); time.Now().Before(dl) && rn.strm.SendCalls() == calls0; {
+				time.Sleep(30 * time.Microsecond)
+			}
+			// ... and for the sender to have recorded the error (it then starts its exit sequence)
+			for dl := time.Now().Add(limit); time.Now().Before(dl) && rn.sndExits.Load() <= rn.exitsAtConnect; {
 				time.Sleep(30 * time.Microsecond)
 			}
 		}
@@ -585,12 +603,13 @@ func (rn *Runner) Step(in Input) error {
 		var armed atomic.Int32
 		armed.Store(1)
 		atGate, release, straddle := make(chan struct{}), make(chan struct{}), make(chan any, 1)
-		client.VerifSetGate(func(site string) {
+		eg := func(site string) {
 			if site == "status.mid" && armed.CompareAndSwap(1, 2) {
 				close(atGate)
 				<-release
 			}
-		})
+		}
+		rn.extraGate.Store(&eg)
 		go func() {
 			cs, err := rn.c.Status()
 			if err != nil || cs == nil {
@@ -617,7 +636,7 @@ func (rn *Runner) Step(in Input) error {
 		case held = <-straddle:
 		case <-time.After(2 * time.Second):
 		}
-		client.VerifSetGate(nil)
+		rn.extraGate.Store(nil)
 		close(stop)
 		snaps := <-polled
 		if !ok {
